@@ -23,6 +23,7 @@ func system(n int, mask uint, classes []string, pauses int, drifts int, celProbe
 		probes = world.CELProbes()
 	}
 	sliced := len(celProbes) > 1 && celProbes[1]
+	successor := len(celProbes) > 2 && celProbes[2]
 	cfg := osw.B1(n, mask)
 	return &world.System{
 		Name: fmt.Sprintf("B1 phases=%d delegated=%03b pauses=%d drifts=%d", n, mask, pauses, drifts),
@@ -39,6 +40,11 @@ func system(n int, mask uint, classes []string, pauses int, drifts int, celProbe
 				w.Budget["stale"] = 1
 			}
 			w.MustCreate(world.NewObjectSet("r1", ps, probes))
+			if successor {
+				// a newer revision r2 that keeps only r1's first phase: it takes the object over, r1
+				// goes on observing it and must still gate its later phases on that object's probes
+				w.MustCreate(world.NewObjectSet("r2", osw.PhaseSpecs(cfg[:1], 1), probes, "r1"))
+			}
 			w.Budget["user-pause"] = pauses
 			w.Budget["drift"] = drifts
 			return w
@@ -205,6 +211,7 @@ type shape struct {
 	drifts  int
 	cel     bool // probes are a CEL rule with an empty failure message
 	sliced  bool // the phases' objects live in ObjectSlices, a lagging cache may hide one
+	succ    bool // a newer revision r2 (previous: r1) keeps r1's first phase only
 }
 
 var (
@@ -220,6 +227,7 @@ func shapes(quick bool) []shape {
 			{n: 2, mask: 0, classes: two, drifts: 1}, {n: 2, mask: 1, classes: []string{"ready"}, drifts: 1},
 			{n: 2, mask: 0, classes: two, cel: true}, {n: 2, mask: 1, classes: two, cel: true},
 			{n: 2, mask: 0, classes: two, sliced: true},
+			{n: 2, mask: 0, classes: two, succ: true}, {n: 2, mask: 2, classes: two, succ: true},
 		}
 	}
 	var out []shape
@@ -240,22 +248,26 @@ func shapes(quick bool) []shape {
 	}
 	out = append(out, shape{n: 3, mask: 0b010, classes: two, cel: true})
 	out = append(out, shape{n: 2, mask: 0, classes: three, sliced: true}, shape{n: 3, mask: 0, classes: two, sliced: true}, shape{n: 2, mask: 0b10, classes: two, sliced: true})
+	for m := uint(0); m < 4; m++ {
+		out = append(out, shape{n: 2, mask: m, classes: two, succ: true})
+	}
+	out = append(out, shape{n: 3, mask: 0, classes: two, succ: true}, shape{n: 2, mask: 0, classes: two, drifts: 1, succ: true})
 	return out
 }
 
 func run(o checks.Opts) *report.Report {
 	rep := report.New("C03", "bfs")
-	rep.Rule = "explicit-state BFS to closure: events = reconcile(ObjectSet), reconcile(each ObjectSetPhase), workload controller setting any existing object's status to a class of the system's alphabet (none/ready/not-ready/stale-observedGeneration), a third party editing a managed object's spec (so that PKO's own revert bumps the generation under a status that was current); one system per phase layout (2-3 phases, local/delegated mask), status alphabet, probe set and encoding (objects inline, or in ObjectSlices one of which a lagging cache may hide from a pass) (condition / fieldsEqual probes, or a CEL rule with an empty failure message); monitor on every request of every ObjectSet pass"
+	rep.Rule = "explicit-state BFS to closure: events = reconcile(ObjectSet), reconcile(each ObjectSetPhase), workload controller setting any existing object's status to a class of the system's alphabet (none/ready/not-ready/stale-observedGeneration), a third party editing a managed object's spec (so that PKO's own revert bumps the generation under a status that was current); one system per phase layout (2-3 phases, local/delegated mask), status alphabet, probe set and encoding (objects inline, or in ObjectSlices one of which a lagging cache may hide from a pass) (condition / fieldsEqual probes, or a CEL rule with an empty failure message), and layouts with a newer revision r2 that takes over r1's first phase while r1 keeps rolling out its later ones; monitor on every request of every ObjectSet pass"
 	ss := shapes(o.Quick())
 	rep.Bounds["systems"] = len(ss)
 	for i, s := range ss {
 		if o.Shards > 1 && i%o.Shards != o.Shard {
 			continue
 		}
-		sys := system(s.n, s.mask, s.classes, s.pauses, s.drifts, s.cel, s.sliced)
-		sys.Name += fmt.Sprintf(" statuses=%d celProbes=%v sliced=%v", len(s.classes), s.cel, s.sliced)
+		sys := system(s.n, s.mask, s.classes, s.pauses, s.drifts, s.cel, s.sliced, s.succ)
+		sys.Name += fmt.Sprintf(" statuses=%d celProbes=%v sliced=%v successor=%v", len(s.classes), s.cel, s.sliced, s.succ)
 		sys.MaxStates = 400000
-		osw.RunBFS(rep, sys, map[string]any{"n": s.n, "mask": s.mask, "classes": s.classes, "pauses": s.pauses, "drifts": s.drifts, "cel": s.cel, "sliced": s.sliced})
+		osw.RunBFS(rep, sys, map[string]any{"n": s.n, "mask": s.mask, "classes": s.classes, "pauses": s.pauses, "drifts": s.drifts, "cel": s.cel, "sliced": s.sliced, "succ": s.succ})
 		rep.Samples = append(rep.Samples, map[string]any{"system": sys.Name, "example_path": []string{"reconcile:os:r1", "workload:Widget/a=ready", "reconcile:os:r1", "workload:Widget/a=notready", "reconcile:os:r1"}})
 	}
 	return rep
@@ -274,7 +286,8 @@ func replay(v report.Violation) string {
 	drifts, _ := v.Params["drifts"].(float64)
 	cel, _ := v.Params["cel"].(bool)
 	sliced, _ := v.Params["sliced"].(bool)
-	return osw.ReplayBFS(system(int(n), uint(mask), classes, int(pauses), int(drifts), cel, sliced), v)
+	succ, _ := v.Params["succ"].(bool)
+	return osw.ReplayBFS(system(int(n), uint(mask), classes, int(pauses), int(drifts), cel, sliced, succ), v)
 }
 
 func init() {
